@@ -9,6 +9,8 @@
 //   reset <attr> <old:0|1> <smart:0|1> <autofile:hex> <dir:hex>
 //   file <name:hex> <hex|absent>
 //   comment <ptt|bbs> <sysop|user> <userid:hex13> <reqname:hex28> <type:0..255> <text:hex> <ip:hex16> <mtime>
+//   fcomment <room> <comment arguments>   the same, while only <room> (0..40) more bytes fit into the article
+//                                    (file-size limit of this process: the write fails with EFBIG after <room> bytes)
 //   begin <id> <comment arguments>   a commenter runs its lookup and is then kept waiting on the article's lock
 //   (begin <id> <inproc|foreign> ...: the lock is held through cmsys like another goroutine of this server, or by
 //    flock alone like another process)
@@ -29,8 +31,10 @@ package main
 import (
 	"bytes"
 	"errors"
+	"flag"
 	"fmt"
 	"os"
+	"os/signal"
 	"path/filepath"
 	"regexp"
 	"runtime"
@@ -254,6 +258,8 @@ func errClass(err error) string {
 		return "err:name"
 	case errors.As(err, &pe) && os.IsNotExist(err):
 		return "err:nofile"
+	case errors.Is(err, syscall.EFBIG), errors.Is(err, syscall.ENOSPC), errors.Is(err, syscall.EDQUOT):
+		return "err:write"
 	case err == cmsys.ErrPttLock, errors.Is(err, syscall.EWOULDBLOCK), errors.Is(err, syscall.EAGAIN):
 		return "err:lock" // the article lock was refused in every attempt (in-process table or flock)
 	}
@@ -525,6 +531,20 @@ func classify(dir0 []byte, req, text []byte) (classes []string) {
 }
 
 func doComment(line string, w []string) {
+	room := -1 // fcomment: only this many more bytes fit into the addressed article
+	if w[0] == "fcomment" {
+		if len(w) != 10 || len(tickets) > 0 {
+			bad(line)
+			return
+		}
+		r, ok := parseNat(w[1], 40)
+		if !ok {
+			bad(line)
+			return
+		}
+		room = int(r)
+		w = w[1:]
+	}
 	if len(w) != 9 || !haveReset {
 		bad(line)
 		return
@@ -547,13 +567,43 @@ func doComment(line string, w []string) {
 	if ptttype.EDITPOST_SMARTMERGE {
 		wd = 8 * time.Second // the retry loop of doAddRecommend sleeps 5 x 1 s before it gives up
 	}
+	// the write fault: a file-size limit of this process just above the article's present size (SIGXFSZ is
+	// ignored, so write(2) writes what fits and then fails with EFBIG); soft limit only, restored after the call
+	var oldLimit syscall.Rlimit
+	limited := false
+	if room >= 0 {
+		if k := specLookup(dir0, c.req); k >= 0 {
+			if cur, exists := files0[string(cstr(dir0[k*recSz:k*recSz+lenName]))]; exists {
+				if err := syscall.Getrlimit(syscall.RLIMIT_FSIZE, &oldLimit); err != nil {
+					fatal("getrlimit: %v", err)
+				}
+				nl := oldLimit
+				nl.Cur = uint64(len(cur) + room)
+				if err := syscall.Setrlimit(syscall.RLIMIT_FSIZE, &nl); err != nil {
+					fatal("setrlimit: %v", err)
+				}
+				limited = true
+			}
+		}
+	}
 	res := hx.CallT(wd, func() string {
 		o = c.invoke()
 		return "returned"
 	})
+	if limited {
+		if err := syscall.Setrlimit(syscall.RLIMIT_FSIZE, &oldLimit); err != nil {
+			fatal("setrlimit (restore): %v", err)
+		}
+	}
 	t1 := time.Now().Unix()
+	faultRoom = room
 	judge(line, c, false, classes, dir0, files0, res, o, t0, t1)
+	faultRoom = -1
 }
+
+// faultRoom >= 0 while a call made under a write fault is judged: a failed call may then leave the beginning
+// of its line (at most that many bytes) behind the old content - never less than the old content.
+var faultRoom = -1
 
 // judge observes the state after a call, judges it against the property (P-hat) and records the op.
 // stale: the call decided its delta from a copy of the entry read before other comments went through
@@ -641,7 +691,25 @@ func judge(line string, c *call, stale bool, classes []string, dir0 []byte, file
 		label += ":" + cls
 		updateShadow()
 		out = cls + " " + stateStr(dir1)
-		if !stateSame {
+		if faultRoom >= 0 {
+			label += ":write-fault"
+			// all previous bytes untouched: every file still starts with what it held; what was added is at
+			// most the part of the line the kernel accepted; the index is exactly as it was
+			for n, oldC := range files0 {
+				newC, ok := files1[n]
+				if !ok || !bytes.HasPrefix(newC, oldC) {
+					failf("append:prefix", "a refused comment (%v) destroyed bytes of %s: %d bytes before, %d after", err, n, len(oldC), len(newC))
+				} else if len(newC)-len(oldC) > faultRoom {
+					failf("append:shape", "a refused comment left %d bytes in %s, only %d fitted", len(newC)-len(oldC), n, faultRoom)
+				}
+			}
+			if len(files1) != len(files0) {
+				failf("append:prefix", "a refused comment changed the set of files")
+			}
+			if !bytes.Equal(dir0, dir1) {
+				failf("error:state-changed", "the call returned %v but changed index records %v", err, changedRecs)
+			}
+		} else if !stateSame {
 			failf("error:state-changed", "the call returned %v but changed records %v / files %v", err, changedRecs, changedFiles)
 		}
 	default:
@@ -1034,7 +1102,7 @@ func execLine(line string) {
 		doReset(line, w)
 	case "file":
 		doFile(line, w)
-	case "comment":
+	case "comment", "fcomment":
 		doComment(line, w)
 	case "begin":
 		doBegin(line, w)
@@ -1052,7 +1120,9 @@ func execLine(line string) {
 }
 
 func main() {
+	mode := flag.String("mode", "", "\"fault\": only the write-fault histories (a process of its own, as they lower its file-size limit)")
 	run = hx.Start("C10")
+	signal.Ignore(syscall.SIGXFSZ) // a write past RLIMIT_FSIZE returns EFBIG instead of killing the process
 	var err error
 	env, err = bbsenv.New(bbsenv.Options{})
 	if err != nil {
@@ -1085,6 +1155,8 @@ func main() {
 		for _, l := range hx.ReplayOps(run.Replay) {
 			execLine(l)
 		}
+	} else if *mode == "fault" {
+		genFaults()
 	} else {
 		generate()
 	}
